@@ -73,6 +73,12 @@ CHECKS = {
   note="Plug-in behaviours are answer CLASSES with one scripted representative each. Bounds: 3 locations, 2 mappings, 14 modes.",
   technique="TLA+ generator of plug-in answer scripts enumerated by TLC, replayed on the real symbolizer; TLC trace validation of the before/after frame condition",
   design_ref="DESIGN.md 5/C12"),
+ "C17": dict(
+  category="model_checking",
+  text="StacksRules.tla states the stack-set contract (one stack per sample rooted at source 0, frames caller->callee with inlined lines expanded and flagged, value = selected sample value, self = sum of the stacks a source terminates, places = every stack containing the source exactly once at its outermost occurrence, indices in range, arrays non-null, sources interned); Stacks.tla models MakeStack/FillPlaces as actions and TLC checks them against the contract on every catalogue case, rejecting two broken mechanisms. TraceStacks.tla then evaluates the same contract on the JSON produced by the real report.Stacks() - directly and as embedded in the /flamegraph page - for every catalogue case and for random recursion-heavy profiles.",
+  note="Trusted: TLC, JSON extraction from the page. Presentation fields (Display, Color, UniqueName) only checked for presence.",
+  technique="TLA+ contract + operational model checked by TLC; TLC trace validation of the real stack-set JSON",
+  design_ref="DESIGN.md 5/C17"),
 }
 
 NOT_YET = "check not built yet in this session (planned in DESIGN.md section 5)"
